@@ -33,7 +33,7 @@ CHECKS = {
             "next() writes only cur; item = start + cur_before*step (product from the counter) in start's scale; cur += 1 on Some, unchanged on None; None iff cur*step >= span (exclusive) / > span (inclusive); constructors set duration = end - start, cur = 0, incl.",
             "3.C15"),
     "C14": ("abstract interpretation with linear forms and Euclid/truncating-remainder axioms; decision tables; E5 frame rule",
-            "floor: F <= x, x - F < |s|, F = x - (x mod s) with operands provably the exact counts; zero step => 0; ceil = floor + |s| (MAX on overflow); round picks floor iff strictly nearer (ties up); Epoch forms delegate in the epoch's own scale.",
+            "floor: F <= x, x - F < |s|, F = x - (x mod s) with operands provably the exact counts; zero step => 0; ceil = floor + |s| (MAX on overflow); round returns the floor iff strictly nearer, else floor + |s| (MAX on overflow), however the upper candidate is obtained (ties up); Epoch forms delegate in the epoch's own scale.",
             "3.C14"),
     "C17": ("abstract interpretation with uninterpreted scale conversion, constant folding (IEEE doubles), table agreement with the statement's constants, static rounding-error analysis of the float views' expression trees",
             "Every Duration-valued JD/MJD/UNIX view is to_S_duration() + K with K equal to the statement's constant; every float view is to_unit/to_seconds of such a duration with the right unit; from_mjd/from_jde constructors place the day count relative to each of the nine scales' own reference epoch (oracle reference dates), from_unix mirrors the 1970 constant; the public reference-epoch constants are the statement's instants (R5; J2000_REF_EPOCH is a test-locked known finding); the float views' 'few ulps' clause = static rounding-error bound of to_seconds/to_unit (R6, shared with C18.R6: <= 8u*max(|exact|, 1 s)). The float round trip value -> epoch -> value is NOT decided.",
@@ -45,7 +45,7 @@ CHECKS = {
             "Weekday conversions/arithmetic as finite maps equal to arithmetic mod 7 with no reachable panic for any u8/i8; 49-cell difference table; names round-trip; weekday index derived from the integer count (floor(count/1d) mod 7, index 0 = Monday = 1900-01-01); next/previous move 1..7 days per the 49-cell table.",
             "3.C16"),
     "C06": ("table agreement with the shipped data files + decision-table extraction by abstract interpretation + scale-domain (E5) and float-exactness (E6) rules",
-            "Built-in table equals leap-seconds.list and naif0012 row for row; look-up returns the last eligible row at or before the count (all 43 intervals, both flag values); conversions pass iers_only = true; UTC->TAI adds / TAI->UTC subtracts; look-up key domain; exact threshold comparison; file provider shape.",
+            "Built-in table equals leap-seconds.list and naif0012 row for row; look-up returns the last eligible row at or before the count (all 43 intervals, both flag values); conversions pass iers_only = true; UTC->TAI adds / TAI->UTC subtracts; look-up key domain; exact threshold comparison; file provider: both providers' next_back interpreted (None iff pos == len, else data[len-pos-1], pos+1), one generic look-up body for both, parser idioms (white-space-collapsing tokenizer, columns 0 and 1, '#' lines skipped, rows marked announced).",
             "3.C06"),
     "C08": ("region-containment proof per path partition (abstract interpretation + Fourier-Motzkin), table agreement, base-case/inductive-step analysis of the year loop",
             "is_gregorian_valid accepts only inside / rejects only outside the statement's region (month lengths, 4/100/400 rule, leap-second instants from the IERS rows); tables; maybe_from_gregorian = 365(y-1900) d +/- one day per leap loop-year + cumulative days + time of day - scale offset, Err on invalid input, no panic.",
@@ -63,7 +63,7 @@ CHECKS = {
             "No f64 view of the duration and only exact int->float casts in compute_gregorian's cone; forward/inverse Gregorian code share reference year, ranges, leap predicate, tables and offset; hour/minute/second/ns ranges and lossless casts; the eight writers' templates, argument order, scale and fraction guard; accessors from the same decomposition; time-of-day operand flow (compose of one decomposition, nanosecond weights); the (year, month, day) computed from the day count equals the civil calendar for every day of years 0001-9999 (quick tier: ~325 of the 10 003 estimate-year cells; thorough: all). Relies on decompose's exactness (C11.R1) and on is_leap_year == 4/100/400 rule (decided here).",
             "3.C09"),
     "C19": ("abstract interpretation of Display for Formatter over per-rule abstract formats with E7 template decoding; finite-map extraction; constant-vs-documentation agreement",
-            "token -> (field, {:0N}) table for every token in both branches; letter -> Token map and Item::new separator/optional table; each predefined constant equals its documented format string (rustdoc pairs / named standard); no panic for any token, Format fields private, need_gregorian partition; separators exactly once; ISO8601 renders as the default Display template; for UTC epochs Format::parse interpreted on what the Formatter renders (predefined formats without optional tokens + three generated) reaches maybe_from_gregorian with field k = digit run k.",
+            "token -> (field, {:0N}) table for every token in both branches; letter -> Token map (Format::from_str interpreted on \"%<letter>xy\" for every ASCII letter: documented token, separators in order, undocumented letters rejected) and Item::new separator/optional table; each predefined constant equals its documented format string (rustdoc pairs / named standard); no panic for any token, Format fields private, need_gregorian partition; separators exactly once; ISO8601 renders as the default Display template; for UTC epochs Format::parse interpreted on what the Formatter renders (predefined formats without optional tokens + three generated) reaches maybe_from_gregorian with field k = digit run k.",
             "3.C19"),
 }
 
